@@ -61,3 +61,12 @@ P("C08", "mirfacts+srcfacts+rules",
   "check of the generated files governs an early 'regenerate' before the comparison; that load failure/version mismatch/Err regenerate; "
   "that both paths consult the cache with the values they generate from.  Exhaustive over reachable bodies and fields.",
   "64-bit digest collisions ignored; influence is assumed to pass only through field reads in the skipped region (no global state exists in the crate)", b=True)
+
+P("C19", "mirfacts+srcfacts+rules",
+  "static analysis: document-identity flow and guarded-mutation rules (FLOW/CTRL) on save_to_tauri_config, writer/reader key-table agreement (SIBLING, syntax tree), override-guard and ordering rules (ORDER/CTRL), validate-dominates-write on the CLI paths",
+  "Decides that save_to_tauri_config serialises the document it parsed from the same path, replaces it only under !is_object, inserts "
+  "\"plugins\" only under !contains_key and \"typegen\" into that object, and never calls a removing JSON method; that the ten keys written "
+  "are exactly the keys read, bound to the same fields, in the same section; that each CLI override is applied under exactly its flag, after "
+  "load, never overwritten, before validate, and defaults only without a file; that on run_generate/run_init/generate_from_config every "
+  "filesystem-mutating step is dominated by validate()? success and validate accepts exactly {zod, none} and checks the project path.",
+  "value-level JSON round-trip inside serde_json is trusted; the build-script path's fallback to defaults is outside the command-line clause", b=True)
